@@ -90,6 +90,14 @@ Example C17_overflow_accepts_everything :
       Ok [("self", 100); ("_new_value", dMISSING); ("_inplace", dFalse); ("_if", dTrue); ("zzz", 5); ("extra", 6)].
 Proof. eexists. split; [vm_compute; reflexivity|]. vm_compute. repeat split; reflexivity. Qed.
 
+(* edge recorded for the record: a key attribute named `kwargs` collides with the
+   catch-all the builder adds; inspect.Signature refuses the duplicate and the
+   class cannot be decorated (ValueError), so no method exists to speak about *)
+Example C17_key_named_kwargs_cannot_be_built :
+  build_method (MInit (Some ("kwargs", false)))
+               (Some (mkncls [mknattr "kwargs" true 0; mknattr "a" true 0] None)) = Err ValueErr.
+Proof. vm_compute. reflexivity. Qed.
+
 Print Assumptions C17_accept_iff_advertised.
 Print Assumptions C17_values_reach_impl.
 Print Assumptions C17_reject_before_effect.
@@ -97,3 +105,4 @@ Print Assumptions C17_nested_keywords_bijective.
 Print Assumptions C17_any_builder_program.
 Print Assumptions C17_with_attr_accepts_and_rejects.
 Print Assumptions C17_overflow_accepts_everything.
+Print Assumptions C17_key_named_kwargs_cannot_be_built.
